@@ -379,4 +379,68 @@ pub fn run(case: &str, input: &str) -> String {
     }
 }
 
-pub fn dump(out: &mut dyn Write) {}
+/// T2: the code tables of the *compiled* reader, exhaustively: every u16 as a column type code and
+/// every u8 as a language code is pushed through `EXH::from_existing` (a 32-byte header declaring
+/// one column / one language followed by the probe); accepted codes are listed with the variant
+/// they decode to (and, for languages, `get_language_code`).
+pub fn dump(out: &mut dyn Write) {
+    fn header(cols: u16, langs: u16) -> Vec<u8> {
+        let mut h = b"EXHF".to_vec();
+        for v in [3u16, 4, cols, 0, langs] {
+            h.extend_from_slice(&v.to_be_bytes());
+        }
+        h.extend_from_slice(&[0u8; 18]);
+        h
+    }
+    fn ctor(debug: &str) -> String {
+        // Lean constructor of Physis.Exh.ColumnDataType: `UInt8` -> `uint8`, `PackedBool3` -> `packedBool3`
+        if let Some(r) = debug.strip_prefix("UInt") {
+            format!("uint{}", r)
+        } else {
+            let mut c = debug.chars();
+            let f = c.next().unwrap().to_ascii_lowercase();
+            format!("{}{}", f, c.as_str())
+        }
+    }
+    writeln!(out, "-- GENERATED by `harness C05 dump` from the compiled code — do not edit (rewritten by ./check on every run)").unwrap();
+    writeln!(out, "import PhysisModel.Model.Exh").unwrap();
+    writeln!(out, "namespace Physis.Generated\nopen Physis.Exh\n").unwrap();
+    writeln!(out, "/-- every u16 accepted as `ColumnDataType`, with the variant it decodes to -/").unwrap();
+    writeln!(out, "def excelColumnCodes : List (Nat × ColumnDataType) := [").unwrap();
+    let mut first = true;
+    for code in 0..=u16::MAX {
+        let mut b = header(1, 0);
+        b.extend_from_slice(&code.to_be_bytes());
+        b.extend_from_slice(&[0, 0]);
+        if let Some(exh) = EXH::from_existing(&b) {
+            let name = format!("{:?}", exh.column_definitions[0].data_type);
+            writeln!(out, "  {}({}, .{})", if first { "" } else { "," }, code, ctor(&name)).unwrap();
+            first = false;
+        }
+    }
+    writeln!(out, "]\n").unwrap();
+    writeln!(out, "/-- every u8 accepted as `Language`, the variant, and `get_language_code` of it (ASCII) -/").unwrap();
+    writeln!(out, "def excelLanguageCodes : List (Nat × Language × List UInt8) := [").unwrap();
+    let mut first = true;
+    for code in 0..=u8::MAX {
+        let mut b = header(0, 1);
+        b.push(code);
+        if let Some(exh) = EXH::from_existing(&b) {
+            let l = exh.languages[0];
+            let name = match l {
+                Language::None => "None",
+                Language::Japanese => "Japanese",
+                Language::English => "English",
+                Language::German => "German",
+                Language::French => "French",
+                Language::ChineseSimplified => "ChineseSimplified",
+                Language::ChineseTraditional => "ChineseTraditional",
+                Language::Korean => "Korean",
+            };
+            let sfx: Vec<String> = physis::common::get_language_code(&l).bytes().map(|c| c.to_string()).collect();
+            writeln!(out, "  {}({}, .{}, [{}])", if first { "" } else { "," }, code, name, sfx.join(", ")).unwrap();
+            first = false;
+        }
+    }
+    writeln!(out, "]\n\nend Physis.Generated").unwrap();
+}
